@@ -369,6 +369,13 @@ func (tree *ObjectTree) ClosestNamedAncestor(obj *Object) uint32 {
 		}
 
 		if pOpcodeTable[ancestor.infoIndex].flags&pOpFlagNamed != 0 {
+			// The anonymous block of a Scope directive that has not been
+			// merged into its target yet is not a namespace scope: the
+			// enclosing scope is only known once the directive has been
+			// resolved.
+			if ancestor.opcode == pOpIntScopeBlock && ancestor.name[0] == 0 && ancestor.parentIndex != InvalidIndex && tree.ObjectAt(ancestor.parentIndex).opcode == pOpScope {
+				break
+			}
 			return ancestorIndex
 		}
 
